@@ -3,6 +3,37 @@ import CTM.Lemmas.TreeValidate
 namespace CTM.RawTree
 variable {t : RawTree}
 
+/-! ### every level of an accepted tree has a node -/
+
+/-- the top level has a node (validator), every node above the leaf level has a
+child (validator), every listed child is a key of the next level: so every
+level of the hierarchy has at least one node -/
+theorem nodesAt_ne_nil_of_validate (hv : t.validate = .ok ()) :
+    ∀ (i : Nat) (hi : i < t.hierarchy.length), t.nodesAt t.hierarchy[i] ≠ []
+  | 0, hi => by
+    apply hasNode_of_validate hv
+    rw [List.head?_eq_getElem?]; exact List.getElem?_eq_getElem hi
+  | i+1, hi => by
+    have s := strict_of_validate hv
+    have ih := nodesAt_ne_nil_of_validate hv i (by omega)
+    cases hp : t.nodesAt (t.hierarchy[i]'(by omega)) with
+    | nil => exact absurd hp ih
+    | cons p ps =>
+      have hpm : p ∈ t.nodesAt (t.hierarchy[i]'(by omega)) := by rw [hp]; exact List.mem_cons_self
+      have hne := s.childNe _ _ (mem_levelPairs_of_idx hi) p _ (mem_level_entry hpm)
+      cases hc : t.entry (t.hierarchy[i]'(by omega)) p with
+      | nil => exact absurd hc hne
+      | cons c cs =>
+        have := s.entry_sub hi hpm (c := c) (by rw [hc]; exact List.mem_cons_self)
+        intro hnil
+        rw [hnil] at this
+        cases this
+
+theorem nodesAt_ne_nil_of_validate_lv (hv : t.validate = .ok ()) {l : Level}
+    (hl : l ∈ t.hierarchy) : t.nodesAt l ≠ [] := by
+  obtain ⟨i, hi, rfl⟩ := List.mem_iff_getElem.1 hl
+  exact nodesAt_ne_nil_of_validate hv i hi
+
 /-! ### association lists through `filter` / `setLevel` -/
 
 /-- the `fun (k, _) => q k` lambdas of the model are key predicates -/
@@ -165,8 +196,15 @@ theorem flatten_wf (w : WF t) : WF t.flatten := by
   have hh := flatten_hierarchy hl
   have hn : t.flatten.hierarchy.Nodup := by rw [hh]; simp
   have hne : t.flatten.hierarchy ≠ [] := by rw [hh]; simp
+  have hnode : ∀ l0, t.flatten.hierarchy.head? = some l0 → t.flatten.nodesAt l0 ≠ [] := by
+    intro l0 h0
+    rw [hh] at h0
+    simp only [List.head?_cons, Option.some.injEq] at h0
+    subst h0
+    rw [flatten_nodesAt_leaf w.hNodup hl]
+    exact nodesAt_ne_nil_of_validate_lv w.valid (List.mem_of_getLast? hl)
   exact
-    { valid := validate_of_strict hn hne
+    { valid := validate_of_strict hn hne hnode
         (flatten_strict (strict_of_validate w.valid) w.hNodup hl)
       hNodup := hn
       hNe := hne
@@ -755,8 +793,16 @@ theorem dropLevelRaw_wf (w : WF t) (hi : i < t.hierarchy.length)
     have hlen : t'.hierarchy.length = 0 := by rw [e]; rfl
     rw [hh, List.length_eraseIdx, if_pos hi] at hlen
     omega
+  have hnode : ∀ l0, t'.hierarchy.head? = some l0 → t'.nodesAt l0 ≠ [] := by
+    intro l0 h0
+    have hmem : l0 ∈ t'.hierarchy := List.mem_of_head? h0
+    have hmem' := hmem
+    rw [hh, List.mem_eraseIdx_iff_getElem] at hmem'
+    obtain ⟨k, hk, hki, rfl⟩ := hmem'
+    rw [drop_nodesAt hn hi ht' (fun e => hki ((List.getElem_inj hn).1 e))]
+    exact nodesAt_ne_nil_of_validate w.valid k hk
   exact
-    { valid := validate_of_strict hn' hne'
+    { valid := validate_of_strict hn' hne' hnode
         (drop_strict (strict_of_validate w.valid) w.dict hn hi ht')
       hNodup := hn'
       hNe := hne'
